@@ -10,6 +10,10 @@ use std::sync::{Arc, Mutex};
 #[derive(Clone, Copy, Debug, PartialEq)]
 enum Shape {
   Direct,
+  /// producers that never check is_subscribed()
+  RudeDirect,
+  RudeMap,
+  RudeMerge,
   Map,
   MapFilterTake,
   Merge,
@@ -33,7 +37,12 @@ fn unsub_scn(shape: Shape, q: Option<u32>, t: Option<u32>) -> Scn {
       let a = || threaded_source("a", vec![N(1), N(2), N(3), C], vec![], causes2.clone());
       let b = || threaded_source("b", vec![N(11), N(12), C], vec![], causes2.clone());
       let mut producer = None;
+      let ra = || rude_threaded_source("a", vec![N(1), N(2), N(3), C], causes2.clone());
+      let rb = || rude_threaded_source("b", vec![N(11), N(12), C], causes2.clone());
       let o: Observable<'static, i64> = match shape {
+        Shape::RudeDirect => ra(),
+        Shape::RudeMap => ra().map(|x| x),
+        Shape::RudeMerge => ra().merge(&[rb()]),
         Shape::Direct => a(),
         Shape::Map => a().map(|x| x),
         Shape::MapFilterTake => a().map(|x| x).filter(|_| true).take(5),
@@ -112,6 +121,9 @@ fn unsub_scn(shape: Shape, q: Option<u32>, t: Option<u32>) -> Scn {
 pub fn scenarios() -> Vec<Scn> {
   vec![
     unsub_scn(Shape::Direct, Some(2), Some(4)),
+    unsub_scn(Shape::RudeDirect, Some(2), Some(4)),
+    unsub_scn(Shape::RudeMap, Some(2), Some(3)),
+    unsub_scn(Shape::RudeMerge, Some(1), Some(2)),
     unsub_scn(Shape::Map, Some(2), Some(3)),
     unsub_scn(Shape::MapFilterTake, None, Some(2)),
     unsub_scn(Shape::Merge, Some(1), Some(2)),
